@@ -96,6 +96,11 @@ def run(chk, facts_dir, tier):
             if cl[0] == "agg" and cl[1].startswith("closure:"):
                 ret = cls.closure_return(cl[1].split(":", 1)[1])
                 callsn = [x[1] for x in walk(ret) if isinstance(x, tuple) and x and x[0] == "call"]
+                # `a.cmp(b).then_with(|| c.cmp(d))`: the second comparison lives in a nested closure
+                for x in list(walk(ret)):
+                    if isinstance(x, tuple) and len(x) > 1 and x[0] == "agg" and isinstance(x[1], str) and x[1].startswith("closure:"):
+                        inner = cls.closure_return(x[1].split(":", 1)[1])
+                        callsn += [y[1] for y in walk(inner) if isinstance(y, tuple) and y and y[0] == "call"]
                 if last in ("sort_by", "sort_unstable_by"):
                     n_cmp = len([c for c in callsn if c.endswith("::cmp") or c.endswith("::partial_cmp")])
                     chained = any(c.endswith("Ordering::then") or c.endswith("Ordering::then_with") for c in callsn)
